@@ -321,7 +321,7 @@ func (c *Ctx) checkLoopScopeDepth(rule string) {
 }
 
 func checkC04(c *Ctx) {
-	c.explainf("C04 decides balance of the interpreter's stacks as a property of the compiler and of the builtin contract: every emission sequence the generator can produce (derived by abstract interpretation of the generator's Go code) nets exactly one operand per form and zero per separated statement on all control paths, opens and closes scopes in pairs with the generator's scope counter in step, and nests markers / stack marks properly; every instruction's Execute has the operand effect the verifier assumes; builtins leave the data stack as they found it; Run pops exactly one result, the resume pop is emitted only when a previous result is pending, eval truncates back to its starting depth, address and loop stacks are pushed and popped in pairs. It does not decide heap growth or depth after failed evaluations.")
+	c.explainf("C04 decides balance of the interpreter's stacks as a property of the compiler and of the builtin contract: every emission sequence the generator can produce (derived by abstract interpretation of the generator's Go code) nets exactly one operand per form and zero per separated statement on all control paths, opens and closes scopes in pairs with the generator's scope counter in step, and nests markers / stack marks properly; every instruction's Execute has the operand effect the verifier assumes; builtins leave the data stack as they found it; Run pops exactly one result, the resume pop is emitted only when a previous result is pending, eval truncates back to its starting depth, address and loop stacks are pushed and popped in pairs. When the interpreter is at rest the loader drops the finished code of the main function before it appends more, and a generated name is never bound (C04-GROW); the symbols interned per compilation are recorded findings. It does not decide heap growth in general or depth after failed evaluations.")
 	c.esReport("ES-D", "ES-S", "ES-M", "ES-MODEL")
 	c.note("emission_templates", len(c.es.templates))
 	c.checkIX("IX-DATA", "")
